@@ -27,6 +27,9 @@ def decorate(src, rnd):
     out.append(("nonascii-comment-earlier-line", "# caf\u00e9 \u4e2d\u6587\n" + src))
     out.append(("nonascii-string-same-line", "s = '\u00e9\u00e8\u4e2d'; " + src if not src.startswith((" ", "\n", "@", "def ", "class ", "if ", "for ", "while ", "with ", "try", "async ")) else "s = '\u00e9'\n" + src))
     out.append(("crlf", src.replace("\n", "\r\n")))
+    out.append(("cr-only", src.replace("\n", "\r")))
+    out.append(("stray-cr-in-a-crlf-file", src.replace("\n", "\r\n").replace("\r\n", "\r", 1)))
+    out.append(("cr-in-earlier-string-and-comment", 'doc = """a\rb"""  # note\rmark = 1\n' + src))
     out.append(("formfeed-in-earlier-string", 'doc = """a\x0cb"""\n' + src))
     out.append(("u2028-in-earlier-string", "sep = '\u2028x'\n" + src))
     out.append(("no-trailing-newline", src.rstrip("\n")))
@@ -248,7 +251,7 @@ def run(tier, seed):
         for f in r["fails"][:2]:
             fl.append({"id": f"{f['cls']}::{hash(src) & 0xffffffff:x}", "cls": f["cls"].split(":raises")[0] if False else f["cls"], "input": src, "observed": f["what"], "required": "source[get_charnos(node)] is the node's text (ast.get_source_segment oracle)"})
     out.append({"name": "c13-span-oracle", "function": "core.get_charnos (+ _get_line_start_charnos, _get_position)", "contract": "0 <= start <= end <= len(source) and source[start:end] == node text",
-                "space": f"every positioned node of {len(srcs)} corpus snippets, plus 9 generated variants (non-ASCII comment/string, CRLF, form feed, U+2028, no trailing newline, decorators, trailing '# @') of {len(base) if tier == 'thorough' else 80} of them",
+                "space": f"every positioned node of {len(srcs)} corpus snippets, plus 14 generated variants (non-ASCII comment/string, CRLF, CR only, a stray CR, CR inside a string and after a comment, form feed, U+2028, no trailing newline, decorators, trailing '# @') of {len(base) if tier == 'thorough' else 80} of them",
                 "bound": "corpus + variants", "evaluations": nodes, "distinct_nontrivial": len({s for _, s in span_inputs}), "exhaustive": False,
                 "failures": _cap(fl), "samples": [span_inputs[0][1][:200], span_inputs[-1][1][:200]]})
     fl, evals = [], 0
